@@ -7,7 +7,7 @@ use ebml_iterable::TagIterator;
 use crate::ctx::Ctx;
 use crate::docs::{self, DocParams};
 use crate::gen;
-use crate::obs::{make_iter, norm_err, panic_msg, step_next, Cfg, NErr};
+use crate::obs::{make_iter, norm_err, panic_msg, step_next, Cfg, NErr, Script, Step};
 use crate::refmodel::{flatten, flatten_ex, hex, ref_encode, Lay, NItem};
 use crate::spec::*;
 
@@ -23,11 +23,17 @@ struct Run {
 }
 
 fn run_with_recovery(input: &[u8], cfg: &Cfg) -> Result<Run, (String, String)> {
-    let mut it: TagIterator<&[u8], V> = make_iter(input, cfg);
+    run_with_recovery_on(input, input.len(), cfg)
+}
+
+fn run_with_recovery_on<R: std::io::Read>(src: R, input_len: usize, cfg: &Cfg) -> Result<Run, (String, String)> {
+    let input = vec![0u8; 0];
+    let _ = &input;
+    let mut it: TagIterator<R, V> = make_iter(src, cfg);
     let mut before = Vec::new();
     let mut errors = Vec::new();
     let mut calls = 0u64;
-    let budget = 2 * input.len() + 64;
+    let budget = 2 * input_len + 64;
     // until the first error
     loop {
         calls += 1;
@@ -197,15 +203,105 @@ fn buffered_variants(ctx: &mut Ctx, rs: &RefSpec, doc: &Vec<crate::refmodel::Nod
     }
 }
 
+/// Long runs of junk (16-40 bytes, zeros and mixed) delivered by a source whose reads end at, just before and just
+/// after the junk's first and last byte: the recovery scan crosses a refill exactly there.
+fn chunked_variants(ctx: &mut Ctx, rs: &RefSpec, doc: &Vec<crate::refmodel::Node>, bytes: &[u8], lay: &[Lay], flat: &[(NItem, usize)], flat_ex: &[(NItem, usize, usize)]) {
+    if gen::count_nodes(doc) > 3 {
+        return;
+    }
+    let mut junks: Vec<Vec<u8>> = Vec::new();
+    for len in [16usize, 17, 24, 40] {
+        junks.push(vec![0u8; len]);
+        junks.push((0..len).map(|i| [0x05u8, 0x00, 0x02, 0x0f][i % 4]).collect());
+        let mut z = vec![0x02u8; 3];
+        z.extend(std::iter::repeat(0u8).take(len - 3));
+        junks.push(z);
+    }
+    for (li, l) in lay.iter().enumerate() {
+        let b = l.tag_start;
+        let enclosing: Vec<&Lay> = lay.iter().filter(|k| k.is_master && k.data_start <= b && b < k.end).collect();
+        let mut seen = 0;
+        let mut fi = 0;
+        for (k, (it, _)) in flat.iter().enumerate() {
+            if !it.is_end() {
+                if seen == li {
+                    fi = k;
+                    break;
+                }
+                seen += 1;
+            }
+        }
+        let mut deferred = 0;
+        while deferred < fi && flat_ex[fi - 1 - deferred].0.is_end() && lay[flat_ex[fi - 1 - deferred].2].unknown {
+            deferred += 1;
+        }
+        for junk in &junks {
+            let j = junk.len();
+            if !enclosing.iter().all(|k| l.end + j <= k.end) {
+                continue;
+            }
+            let mut input = Vec::with_capacity(bytes.len() + j);
+            input.extend_from_slice(&bytes[..b]);
+            input.extend_from_slice(junk);
+            input.extend_from_slice(&bytes[b..]);
+            let want_before = &flat[..fi - deferred];
+            let want_after: Vec<(NItem, usize)> = flat[fi - deferred..].iter().map(|(it, o)| (it.clone(), if *o >= b { *o + j } else { *o })).collect();
+            // read boundaries: around the start and the end of the junk; two-part and three-part schedules, and 1-byte reads
+            let mut schedules: Vec<Vec<Step>> = vec![vec![Step::Max(1); input.len() + 2]];
+            for first in [b.max(1), b + 1, b + j - 1, b + j, b + j + 1] {
+                if first < input.len() {
+                    schedules.push(vec![Step::Max(first)]);
+                }
+            }
+            if b > 0 {
+                schedules.push(vec![Step::Max(b), Step::Max(j)]);
+                schedules.push(vec![Step::Max(b), Step::Max(j - 1), Step::Max(1)]);
+            }
+            schedules.push(vec![Step::Max(b + 8), Step::Max(j - 8)]);
+            for cap in [None, Some(16usize), Some(64)] {
+                for steps in &schedules {
+                    let cfg = Cfg::strict().with_cap(cap);
+                    let d = || format!("doc=[{}] bytes={} junk={} inserted at {} cap={:?} read schedule {:?}", docs::doc_short(rs, doc), hex(bytes), hex(junk), b, cap, &steps[..steps.len().min(4)]);
+                    if !ctx.enter(&d) {
+                        continue;
+                    }
+                    ctx.nontrivial();
+                    ctx.count("long_junk_across_read_boundaries", 1);
+                    match run_with_recovery_on(Script::new(&input, steps), input.len(), &cfg) {
+                        Err((k, det)) => ctx.violation(&format!("chunked/{}", k), &d, &det),
+                        Ok(r) => {
+                            ctx.transitions += r.calls;
+                            let bad = if r.before[..] != want_before[..] {
+                                Some("chunked/items-before-the-junk-differ")
+                            } else if r.errors.len() != 1 || r.recover.is_err() || r.tail != "None" {
+                                Some("chunked/not-exactly-one-error-and-a-successful-recovery")
+                            } else if r.after != want_after {
+                                Some("chunked/items-after-recovery-differ-from-undamaged-document")
+                            } else {
+                                None
+                            };
+                            if let Some(k) = bad {
+                                ctx.violation(k, &d, &format!("expected before [{}] after [{}] | input={} | before [{}] errors {:?} recover {:?} after [{}] tail {}", want_before.iter().map(|(i, o)| format!("{}@{}", i.short(), o)).collect::<Vec<_>>().join(" "), want_after.iter().map(|(i, o)| format!("{}@{}", i.short(), o)).collect::<Vec<_>>().join(" "), hex(&input), r.before.iter().map(|(i, o)| format!("{}@{}", i.short(), o)).collect::<Vec<_>>().join(" "), r.errors.iter().map(|e| e.short()).collect::<Vec<_>>(), r.recover.as_ref().map_err(|e| e.short()), r.after.iter().map(|(i, o)| format!("{}@{}", i.short(), o)).collect::<Vec<_>>().join(" "), r.tail));
+                            }
+                        }
+                    }
+                    ctx.validated += 1;
+                    ctx.leave();
+                }
+            }
+        }
+    }
+}
+
 pub fn run(ctx: &mut Ctx) {
     let rs = v_refspec();
     crate::spec::assert_spec_matches::<V>(&rs);
     let max_junk = ctx.tier.pick(6, 10);
     let p = DocParams { max_nodes: ctx.tier.pick(5, 6), globals: vec![ID_TAG, ID_VOID], exclude: vec![], unknown_subsets: true, devs: 0, payload_classes: false, big_payloads: false, noncanonical: false, width_devs: false, extras: true, all_widths: false };
-    ctx.meta("rule", "cases: (known-size document, tag boundary b (not the end), junk run, capacity); junk runs = every string up to length 3 over {00, 02, 05, 0f} (bytes that cannot begin any id of V whatever follows: zero byte, 7-, 6- and 5-byte markers) plus structured runs up to the length bound; inserted without adjusting any size field. Independent precondition: following tag's extent + junk length still inside every enclosing known-size master's declared range. If it holds: items before the junk == reference flatten prefix, exactly one error, try_recover() Ok, remaining items == undamaged flatten with offsets >= b shifted by the junk length, clean end. With one master id buffered (junk lengths 1, 2, 5; insertion points not inside, and not directly behind a still open, master of that id): the same with complete buffered masters as Full items before and after the junk. Always: no panic, try_recover fails only with UnexpectedEOF/ReadError, offsets never move backwards across a recovery. Non-trivial: insertions inside >= 1 known-size master with the precondition true.");
+    ctx.meta("rule", "cases: (known-size document, tag boundary b (not the end), junk run, capacity); junk runs = every string up to length 3 over {00, 02, 05, 0f} (bytes that cannot begin any id of V whatever follows: zero byte, 7-, 6- and 5-byte markers) plus structured runs up to the length bound; inserted without adjusting any size field. Independent precondition: following tag's extent + junk length still inside every enclosing known-size master's declared range. If it holds: items before the junk == reference flatten prefix, exactly one error, try_recover() Ok, remaining items == undamaged flatten with offsets >= b shifted by the junk length, clean end. With one master id buffered (junk lengths 1, 2, 5; insertion points not inside, and not directly behind a still open, master of that id): the same with complete buffered masters as Full items before and after the junk. Documents of <= 3 elements additionally with junk runs of 16-40 bytes (zeros, mixed, zero-tailed) over a source whose reads end at / one before / one after the first and the last junk byte, and with 1-byte reads, capacities {default,16,64}. Always: no panic, try_recover fails only with UnexpectedEOF/ReadError, offsets never move backwards across a recovery. Non-trivial: insertions inside >= 1 known-size master with the precondition true.");
     ctx.meta("bounds", &format!("documents <= {} elements (+ spines), every boundary, junk length <= {}, capacities {{default,16}}, tolerance {{none, oversized, hierarchy+oversized}}", p.max_nodes, max_junk));
     ctx.meta("assumptions", "the unconditional clause for arbitrary byte streams and call histories is exercised by C05's history sweep");
-    for c in ["unknown_size_ends_deferred_past_the_junk", "precondition_true_inside_known_master", "precondition_true_root_level", "precondition_false", "buffered_master_after_the_junk", "junk_directly_behind_a_buffered_master"] {
+    for c in ["unknown_size_ends_deferred_past_the_junk", "precondition_true_inside_known_master", "precondition_true_root_level", "precondition_false", "buffered_master_after_the_junk", "junk_directly_behind_a_buffered_master", "long_junk_across_read_boundaries"] {
         ctx.expect_nonzero(c);
     }
     let junks = junk_runs(max_junk);
@@ -311,6 +407,7 @@ pub fn run(ctx: &mut Ctx) {
             }
         }
         buffered_variants(ctx, &rs, doc, &bytes, &lay, &flat, &flat_ex, &junks);
+        chunked_variants(ctx, &rs, doc, &bytes, &lay, &flat, &flat_ex);
         !ctx.should_stop()
     });
 }
